@@ -299,6 +299,7 @@ def extract_function(mod, fd):
 
 
 CTOR_EFFECTS = {}
+MODS = {}       # source path -> parsed module (reused by gen/flow.py)
 
 
 def extract_all(repo, verif):
@@ -310,6 +311,7 @@ def extract_all(repo, verif):
         except Unsupported as e:
             errors.append("%s: %s" % (src, e))
             continue
+        MODS[src] = mod
         for d in mod.decls:
             if d.get("kind") == "FunctionDecl" and any(c.get("kind") == "CompoundStmt" for c in d.get("inner", [])):
                 floc = d.get("loc", {})
